@@ -1313,6 +1313,7 @@ def add_invariant_checks(cls: ClassT) -> None:
     init_func = None  # type: Optional[Callable[..., None]]
     names_funcs = []  # type: List[Tuple[str, Callable[..., None]]]
     names_properties = []  # type: List[Tuple[str, property]]
+    restorer_funcs = []  # type: List[Tuple[str, Callable[..., None]]]
 
     # As we continuously decorate the class with invariants, we never definitely know
     # whether this decoration is the last one. Hence, we can only retrieve the list
@@ -1352,6 +1353,12 @@ def add_invariant_checks(cls: ClassT) -> None:
             )
 
             init_func = value
+            continue
+
+        if name == "__setstate__" and inspect.isfunction(value):
+            # ``__setstate__`` restores the state of a blank instance (*e.g.*, on copying or unpickling) and thus acts
+            # as a constructor: the invariants can hold only after it returns.
+            restorer_funcs.append((name, value))
             continue
 
         # NOTE: We have to consider all the invariants, not only the last one. When the meta-class adds
@@ -1420,6 +1427,11 @@ def add_invariant_checks(cls: ClassT) -> None:
             if wrapper is not init_func:
                 # NOTE: The name of the function need not be ``__init__`` (*e.g.*, ``__init__ = _some_helper``).
                 setattr(cls, "__init__", wrapper)
+
+    for name, func in restorer_funcs:
+        wrapper = _decorate_with_invariants(func=func, is_init=True)
+        if wrapper is not func:
+            setattr(cls, name, wrapper)
 
     for name, func in names_funcs:
         wrapper = _decorate_with_invariants(
